@@ -441,6 +441,257 @@ Qed.
 Lemma call_step_ds ev fnv st ia : exists x, snd (call_step ev fnv st ia) = snd st ++ x.
 Proof. destruct (call_step_ds2 ev fnv st ia) as [x H]. rewrite H, <- !app_assoc. eexists; reflexivity. Qed.
 
+(* ---- conditional ------------------------------------------------------------------------------ *)
+Definition cond_uni (tv fv : val) : option (ty * bool * bool) + bool :=
+  if is_dyn_null tv then inl (Some (type_of fv, true, false))
+  else if is_dyn_null fv then inl (Some (type_of tv, false, true))
+  else if ty_eqb (type_of tv) TDyn || ty_eqb (type_of fv) TDyn then inl (Some (TDyn, false, false))
+  else match unify (type_of tv) (type_of fv) with
+       | UOk t => inl (Some (t, negb (ty_eqb (type_of tv) t), negb (ty_eqb (type_of fv) t)))
+       | UNone => inr false
+       | UUnsupported => inr true
+       end.
+
+(* observations of a branch value used by the unknown-condition path *)
+Record bobs := mkObs { o_null : bool; o_dnn : option bool; o_ty : ty;
+                       o_nlo : option (option (num * bool)); o_nhi : option (option (num * bool));
+                       o_llo : option Z; o_lhi : option (option Z) }.
+Definition obs_of (v : val) : bobs :=
+  mkObs (hd_null v) (definitely_not_null v) (type_of v) (num_lo v) (num_hi v) (len_lo v) (len_hi v).
+
+Definition cond_unk_obs (rt : ty) (t f : bobs) : val :=
+  let nn := match o_dnn t, o_dnn f with
+            | Some a, Some b => Some (a && b) | _, _ => None end in
+  if o_null t && o_null f then VNull rt else
+    match nn with
+    | None => VUnk rt RWild
+    | Some nnb =>
+      if ty_eqb (o_ty t) TNum && ty_eqb (o_ty f) TNum then
+        match o_nlo t, o_nlo f, o_nhi t, o_nhi f with
+        | Some tlo, Some flo, Some thi, Some fhi =>
+            let lo := match tlo, flo with
+                      | Some (a, ai), Some (b, bi) =>
+                          if num_ltb a b then Some (a, ai)
+                          else if num_eqb a b then Some (b, ai || bi) else Some (b, bi)
+                      | _, _ => None end in
+            let hi := match thi, fhi with
+                      | Some (a, ai), Some (b, bi) =>
+                          if num_ltb b a then Some (a, ai)
+                          else if num_eqb a b then Some (b, ai || bi) else Some (b, bi)
+                      | _, _ => None end in
+            let lo := match lo with Some (NInf false, _) => None | o => o end in
+            let hi := match hi with Some (NInf true, _) => None | o => o end in
+            finish_unknown TNum (mkRefn nnb [] lo hi 0 None)
+        | _, _, _, _ => VUnk TNum RWild
+        end
+      else if is_collection (o_ty t) && is_collection (o_ty f) && ty_eqb (o_ty t) (o_ty f) then
+        match o_llo t, o_llo f, o_lhi t, o_lhi f with
+        | Some tl, Some fl, Some th, Some fh =>
+            let lo := Z.min tl fl in
+            let hi := match th, fh with Some a, Some b => Some (Z.max a b) | _, _ => None end in
+            finish_unknown rt (mkRefn nnb [] None None lo hi)
+        | _, _, _, _ => VUnk rt RWild
+        end
+      else VUnk rt (RExact (mkRefn nnb [] None None 0 None))
+    end.
+
+Definition cond_pick (rt : ty) (mk : marks) (cds : list diag) (bv : val) (bds : list diag) (needconv : bool) : val * list diag :=
+  if needconv then
+    match conv bv rt with
+    | COk r => (with_marks r mk, cds ++ bds)
+    | CErr ce => (with_marks (VUnk rt rf_none) mk, cds ++ bds ++ [derr S_InconsistentCond [FConv ce]])
+    | CUnsupported => (dyn_val, cds ++ bds ++ [dunsupported])
+    end
+  else (with_marks bv mk, cds ++ bds).
+
+Definition cond_tail (rt : ty) (tconv fconv : bool) (cv : val) (cds : list diag)
+           (tv : val) (tds : list diag) (fv : val) (fds : list diag) : val * list diag :=
+  if is_null cv then (VUnk rt rf_none, cds ++ [derr S_NullCondition []])
+  else
+  let '(cu, cm) := unmark cv in
+  let '(tu, tm) := unmark tv in
+  let '(fu, fm) := unmark fv in
+  let mk := marks_unions [cm; tm; fm] in
+  if negb (is_known cu) then (with_marks (cond_unk_obs rt (obs_of tu) (obs_of fu)) mk, cds)
+  else
+  match conv cu TBool with
+  | CUnsupported => (VUnk rt rf_none, cds ++ [dunsupported])
+  | CErr _ => (VUnk rt rf_none, cds ++ [derr S_IncorrectCondType []])
+  | COk cb =>
+      match cb with
+      | VBool true => cond_pick rt mk cds tu tds tconv
+      | VBool false => cond_pick rt mk cds fu fds fconv
+      | _ => (dyn_val, cds ++ [dunsupported])
+      end
+  end.
+
+Lemma eval_cond_unfold idx f c a ce te fe :
+  eval_with idx (S f) c a (ECond ce te fe) =
+  let '(tv, tds) := eval_with idx f c a te in
+  let '(fv, fds) := eval_with idx f c a fe in
+  if has_unsupported tds || has_unsupported fds then (dyn_val, [dunsupported]) else
+  match cond_uni tv fv with
+  | inr true => (dyn_val, [dunsupported])
+  | inr false | inl None =>
+      (dyn_val, [derr S_InconsistentCond (if contains_marked tv || contains_marked fv then []
+                                          else [FTy (type_of tv); FTy (type_of fv)])])
+  | inl (Some (rt, tconv, fconv)) =>
+      let '(cv, cds) := eval_with idx f c a ce in
+      cond_tail rt tconv fconv cv cds tv tds fv fds
+  end.
+Proof.
+  unfold cond_tail.
+  cbn [eval_with]. destruct (eval_with idx f c a te) as [tv tds]. destruct (eval_with idx f c a fe) as [fv fds].
+  destruct (has_unsupported tds || has_unsupported fds); [reflexivity|].
+  fold (cond_uni tv fv). destruct (cond_uni tv fv) as [[[[rt tconv] fconv]|]|[|]]; try reflexivity.
+  destruct (eval_with idx f c a ce) as [cv cds]. destruct (is_null cv); [reflexivity|].
+  destruct (unmark cv) as [cu cm]. destruct (unmark tv) as [tu tm]. destruct (unmark fv) as [fu fm].
+  destruct (negb (is_known cu)); [|reflexivity].
+  unfold cond_unk_obs, obs_of. cbn [o_null o_dnn o_ty o_nlo o_nhi o_llo o_lhi].
+  destruct (hd_null tu && hd_null fu) eqn:Hn.
+  { destruct tu; try discriminate Hn; destruct fu; try discriminate Hn; reflexivity. }
+  assert (X : forall (A : Type) (a b : A), match tu, fu with VNull _, VNull _ => a | _, _ => b end = b).
+  { intros. destruct tu; try reflexivity; destruct fu; try reflexivity; discriminate Hn. }
+  rewrite X. clear X Hn.
+  repeat match goal with
+         | |- context [match ?y with _ => _ end] => destruct y eqn:?
+         | |- context [if ?y then _ else _] => destruct y eqn:?
+         end; reflexivity.
+Qed.
+
+Lemma obs_leq m a b :
+  leq m a b -> is_mark a = false -> type_of a = type_of b -> (forall t, type_of a <> TSet t) ->
+  obs_of a = obs_of b.
+Proof.
+  intros H N T NS. unfold obs_of. rewrite <- T.
+  leq_heads H; try discriminate N; try (injection H; intros; subst; reflexivity).
+  - injection H as -> H. apply map_erase_Forall2, Forall2_length in H.
+    cbn [hd_null definitely_not_null num_lo num_hi len_lo len_hi length_int]. rewrite H. reflexivity.
+  - exfalso. eapply NS. reflexivity.
+  - injection H as -> H. apply map_erase_kv_Forall2, Forall2_length in H.
+    cbn [hd_null definitely_not_null num_lo num_hi len_lo len_hi length_int]. rewrite H. reflexivity.
+  - injection H as H. apply map_erase_Forall2, Forall2_length in H.
+    cbn [hd_null definitely_not_null num_lo num_hi len_lo len_hi length_int]. rewrite H. reflexivity.
+  - injection H as H. apply map_erase_kv_Forall2, Forall2_length in H.
+    cbn [hd_null definitely_not_null num_lo num_hi len_lo len_hi length_int]. rewrite H. reflexivity.
+Qed.
+
+Lemma cond_pick_ds rt mk cds bv bds nc : exists x, snd (cond_pick rt mk cds bv bds nc) = cds ++ x.
+Proof.
+  unfold cond_pick. destruct nc; [destruct (conv bv rt)|]; cbn [snd]; eexists; reflexivity.
+Qed.
+Lemma cond_tail_ds rt tc fc cv cds tv tds fv fds :
+  exists x, snd (cond_tail rt tc fc cv cds tv tds fv fds) = cds ++ x.
+Proof.
+  unfold cond_tail. destruct (is_null cv); [eexists; reflexivity|].
+  destruct (unmark cv) as [cu cm]. destruct (unmark tv) as [tu tm]. destruct (unmark fv) as [fu fm].
+  destruct (negb (is_known cu)); [exists []; rewrite app_nil_r; reflexivity|].
+  destruct (conv cu TBool) as [cb| |]; try (eexists; reflexivity).
+  destruct cb; try (eexists; reflexivity). destruct b; apply cond_pick_ds.
+Qed.
+
+Lemma cond_pick_marked rt mk cds bv bds nc v ds :
+  cond_pick rt mk cds bv bds nc = (v, ds) -> clean ds -> exists x, v = with_marks x mk.
+Proof.
+  unfold cond_pick. intros E K. destruct nc; [destruct (conv bv rt)|]; injection E as <- <-; eauto;
+    exfalso; apply clean_app in K as [_ K]; bad K.
+Qed.
+Lemma cond_tail_marked rt tc fc cv cds tv tds fv fds v ds :
+  cond_tail rt tc fc cv cds tv tds fv fds = (v, ds) -> clean ds ->
+  exists x, v = with_marks x (marks_unions [marks_of cv; marks_of tv; marks_of fv]).
+Proof.
+  unfold cond_tail, marks_of. intros E K. destruct (is_null cv); [injection E as <- <-; bad K|].
+  destruct (unmark cv) as [cu cm]. destruct (unmark tv) as [tu tm]. destruct (unmark fv) as [fu fm]. cbn [snd].
+  destruct (negb (is_known cu)); [injection E as <- _; eauto|].
+  destruct (conv cu TBool) as [cb| |]; try (injection E as <- <-; bad K).
+  destruct cb; try (injection E as <- <-; bad K). destruct b; eapply cond_pick_marked; eassumption.
+Qed.
+
+Lemma cond_pick_leq m rt mk cds1 cds2 b1 b2 bd1 bd2 nc v1 v2 ds1 ds2 :
+  leq m b1 b2 -> (nc = true -> pd_ty rt = true \/ prim_head b1 = true) ->
+  cond_pick rt mk cds1 b1 bd1 nc = (v1, ds1) -> cond_pick rt mk cds2 b2 bd2 nc = (v2, ds2) ->
+  clean ds1 -> clean ds2 -> leq m v1 v2.
+Proof.
+  unfold cond_pick. intros L Hs E1 E2 K1 K2. destruct nc.
+  - destruct (conv b1 rt) as [r1| |] eqn:C1; try (injection E1 as <- <-; exfalso; apply clean_app in K1 as [_ K1]; bad K1).
+    destruct (conv b2 rt) as [r2| |] eqn:C2; try (injection E2 as <- <-; exfalso; apply clean_app in K2 as [_ K2]; bad K2).
+    injection E1 as <- _. injection E2 as <- _. apply with_marks_leq; [|apply marks_rel_refl].
+    destruct (Hs eq_refl) as [Hp|Hp].
+    + eapply conv_leq_pd; eassumption.
+    + assert (b1 = b2).
+      { apply (leq_prim_eq m); [exact L|]. destruct b1; try discriminate Hp; exact I. }
+      subst b2. rewrite C1 in C2. injection C2 as <-. apply leq_refl.
+  - injection E1 as <- _. injection E2 as <- _. apply with_marks_leq; [exact L|apply marks_rel_refl].
+Qed.
+
+Lemma cond_tail_leq m rt tc fc cv1 cv2 cds1 cds2 tv1 tv2 td1 td2 fv1 fv2 fd1 fd2 v1 v2 ds1 ds2 :
+  leq m cv1 cv2 -> leq m tv1 tv2 -> leq m fv1 fv2 ->
+  is_star m cv1 = false -> is_star m tv1 = false -> is_star m fv1 = false ->
+  wf cv1 -> wf tv1 -> wf fv1 ->
+  obs_of (fst (unmark tv1)) = obs_of (fst (unmark tv2)) ->
+  obs_of (fst (unmark fv1)) = obs_of (fst (unmark fv2)) ->
+  (tc = true -> pd_ty rt = true \/ prim_head (fst (unmark tv1)) = true) ->
+  (fc = true -> pd_ty rt = true \/ prim_head (fst (unmark fv1)) = true) ->
+  cond_tail rt tc fc cv1 cds1 tv1 td1 fv1 fd1 = (v1, ds1) ->
+  cond_tail rt tc fc cv2 cds2 tv2 td2 fv2 fd2 = (v2, ds2) ->
+  clean ds1 -> clean ds2 -> leq m v1 v2.
+Proof.
+  intros Lc Lt Lf Sc St Sf Wc Wt Wf Ot Of Ht Hf E1 E2 K1 K2. unfold cond_tail in E1, E2.
+  destruct (leq_nostar_facts _ _ _ Lc Sc Wc) as (Nc & _ & _). rewrite <- Nc in E2.
+  destruct (is_null cv1); [injection E1 as <- <-; bad K1|].
+  assert (U : forall a b, leq m a b -> is_star m a = false ->
+              snd (unmark a) = snd (unmark b) /\ leq m (fst (unmark a)) (fst (unmark b))).
+  { intros a b L S. destruct (unmark_leq _ _ _ L) as [[A _]|(A & _ & C)]; [|auto].
+    pose proof (marks_of_nostar _ _ S) as X. unfold marks_of in X. congruence. }
+  destruct (U _ _ Lc Sc) as [Mc Xc]. destruct (U _ _ Lt St) as [Mt Xt]. destruct (U _ _ Lf Sf) as [Mf Xf].
+  destruct (wf_unmark _ Wc) as [Nkc _].
+  destruct (unmark cv1) as [cu1 cm1]. destruct (unmark cv2) as [cu2 cm2].
+  destruct (unmark tv1) as [tu1 tm1]. destruct (unmark tv2) as [tu2 tm2].
+  destruct (unmark fv1) as [fu1 fm1]. destruct (unmark fv2) as [fu2 fm2]. cbn [fst snd] in *. subst cm2 tm2 fm2.
+  destruct (leq_known_tru _ _ _ Xc Nkc) as [Kc _]. rewrite <- Kc in E2.
+  destruct (negb (is_known cu1)).
+  { injection E1 as <- _. injection E2 as <- _. rewrite Ot, Of. apply leq_refl. }
+  destruct (conv cu1 TBool) as [b1| |] eqn:C1; try (injection E1 as <- <-; bad K1).
+  destruct (conv cu2 TBool) as [b2| |] eqn:C2; try (injection E2 as <- <-; bad K2).
+  assert (Lb : leq m b1 b2) by (eapply (conv_leq_pd m TBool); [reflexivity|exact Xc|exact C1|exact C2]).
+  leq_heads Lb; try (injection E1 as <- <-; bad K1).
+  injection Lb as ->. destruct b0.
+  - eapply cond_pick_leq; [exact Xt|exact Ht|exact E1|exact E2|exact K1|exact K2].
+  - eapply cond_pick_leq; [exact Xf|exact Hf|exact E1|exact E2|exact K1|exact K2].
+Qed.
+
+Lemma is_dyn_null_leq m a b : leq m a b -> is_dyn_null a = is_dyn_null b.
+Proof. intro H. leq_heads H; try reflexivity. injection H as ->. reflexivity. Qed.
+
+Definition cond_ok_ty (T F : ty) : Prop :=
+  T = TDyn \/ F = TDyn \/
+  match unify T F with
+  | UOk t => pd_ty t = true \/ (ty_eqb T t = true /\ ty_eqb F t = true)
+  | _ => True
+  end.
+
+Lemma cond_uni_safe tv fv rt tc fc :
+  cond_uni tv fv = inl (Some (rt, tc, fc)) -> cond_ok_ty (type_of tv) (type_of fv) ->
+  (tc = true -> pd_ty rt = true \/ prim_head (fst (unmark tv)) = true) /\
+  (fc = true -> pd_ty rt = true \/ prim_head (fst (unmark fv)) = true).
+Proof.
+  unfold cond_uni. intros E Hok.
+  destruct (is_dyn_null tv) eqn:D1.
+  { injection E as <- <- <-. split; [|discriminate]. intros _. right.
+    destruct tv; try discriminate D1. reflexivity. }
+  destruct (is_dyn_null fv) eqn:D2.
+  { injection E as <- <- <-. split; [discriminate|]. intros _. right.
+    destruct fv; try discriminate D2. reflexivity. }
+  destruct (ty_eqb (type_of tv) TDyn || ty_eqb (type_of fv) TDyn) eqn:D3.
+  { injection E as <- <- <-. split; discriminate. }
+  apply orb_false_iff in D3 as [D3 D4].
+  destruct Hok as [H|[H|H]]; [rewrite H in D3; discriminate D3|rewrite H in D4; discriminate D4|].
+  destruct (unify (type_of tv) (type_of fv)) as [t| |]; try discriminate E.
+  injection E as <- <- <-. destruct H as [H|[H1 H2]].
+  - split; intros _; left; exact H.
+  - rewrite H1, H2. split; discriminate.
+Qed.
+
 Section NI.
   Variable m : Z.
   Variable idx : val -> val -> val * list diag.
@@ -474,6 +725,23 @@ Section NI.
   Definition nofail (e : expr) : Prop :=
     forall fuel c a, Cx c -> wf_opt a -> has_errors (snd (eval_with idx fuel c a e)) = false.
 
+  (* e has the static type T: every error-free evaluation yields a value of type T *)
+  Definition static_ty (e : expr) (T : ty) : Prop :=
+    forall fuel c a v ds, Cx c -> wf_opt a -> eval_with idx fuel c a e = (v, ds) ->
+      has_errors ds = false -> type_of v = T.
+
+  (* Side condition of the conditional.  (1) Both result expressions never fail: the diagnostics
+     of the branch that is not selected are DROPPED by ConditionalExpr.Value, so an error that
+     depends on marked data would otherwise go unnoticed together with the marks of that
+     branch (cond_refuted_dropped_diags).  (2) Both have a static type, no set type, and the
+     unified result type needs no structural conversion: the result type is computed from the
+     types of BOTH branches, so the type of a marked value selected by a marked index would
+     otherwise leak into the conversion of the other, unmarked branch (cond_refuted_unify). *)
+  Definition cond_side (te fe : expr) : Prop :=
+    nofail te /\ nofail fe /\
+    exists T F, static_ty te T /\ static_ty fe F /\
+      (forall x, T <> TSet x) /\ (forall x, F <> TSet x) /\ cond_ok_ty T F.
+
   Inductive in_fragment : expr -> Prop :=
   | F_lit v : wf v -> in_fragment (ELit v)
   | F_paren e : in_fragment e -> in_fragment (EParen e)
@@ -490,6 +758,8 @@ Section NI.
   | F_tmpl parts : Forall in_fragment parts -> in_fragment (ETmpl parts)
   | F_join e : in_fragment e -> in_fragment (EJoin e)
   | F_call name args : Forall in_fragment args -> in_fragment (ECall name args false)
+  | F_cond ce te fe : in_fragment ce -> in_fragment te -> in_fragment fe -> cond_side te fe ->
+                      in_fragment (ECond ce te fe)
   | F_obj items : Forall (fun it => in_fragment (fst it) /\ in_fragment (snd it)) items -> in_fragment (EObj items).
 
   (* all values the evaluator produces are well-formed (discharged in MarksNI_Wf.v) *)
@@ -1008,5 +1278,94 @@ Section NI.
       destruct (fn_call fnv av2) as [r2| | |] eqn:F2; try (injection E2 as <- <-; bad K2).
       injection E1 as <- _. injection E2 as <- _. eapply Hni; eassumption.
     Qed.
+
+    (* ---- conditional ---- *)
+    Lemma cond_ni ce te fe :
+      in_fragment ce -> in_fragment te -> in_fragment fe -> cond_side te fe -> ni_at (S f) (ECond ce te fe).
+    Proof.
+      intros Fc Ft Ff (Nt & Nf & T & F & St & Sf & NsT & NsF & Hty).
+      intros c1 c2 a1 a2 v1 ds1 v2 ds2 HL HA HF C1 C2 W1 W2 E1 E2 K1 K2.
+      rewrite eval_cond_unfold in E1, E2.
+      pose proof (Nt f c1 a1 C1 W1) as Et1. pose proof (Nf f c1 a1 C1 W1) as Ef1.
+      pose proof (Nt f c2 a2 C2 W2) as Et2. pose proof (Nf f c2 a2 C2 W2) as Ef2.
+      destruct (eval_with idx f c1 a1 te) as [tv1 td1] eqn:A1. destruct (eval_with idx f c1 a1 fe) as [fv1 fd1] eqn:B1.
+      destruct (eval_with idx f c2 a2 te) as [tv2 td2] eqn:A2. destruct (eval_with idx f c2 a2 fe) as [fv2 fd2] eqn:B2.
+      cbn [snd] in Et1, Ef1, Et2, Ef2.
+      destruct (has_unsupported td1 || has_unsupported fd1) eqn:U1; [injection E1 as <- <-; unclean K1|].
+      destruct (has_unsupported td2 || has_unsupported fd2) eqn:U2; [injection E2 as <- <-; unclean K2|].
+      apply orb_false_iff in U1 as [U1t U1f]. apply orb_false_iff in U2 as [U2t U2f].
+      assert (Lt : leq m tv1 tv2) by (useIH Ft A1 A2 (conj Et1 U1t) (conj Et2 U2t)).
+      assert (Lf : leq m fv1 fv2) by (useIH Ff B1 B2 (conj Ef1 U1f) (conj Ef2 U2f)).
+      assert (Wt : wf tv1) by (eapply Hwf_eval; [exact C1|exact W1|exact Ft|exact A1]).
+      assert (Wf : wf fv1) by (eapply Hwf_eval; [exact C1|exact W1|exact Ff|exact B1]).
+      pose proof (St f c1 a1 tv1 td1 C1 W1 A1 Et1) as Tt1. pose proof (St f c2 a2 tv2 td2 C2 W2 A2 Et2) as Tt2.
+      pose proof (Sf f c1 a1 fv1 fd1 C1 W1 B1 Ef1) as Tf1. pose proof (Sf f c2 a2 fv2 fd2 C2 W2 B2 Ef2) as Tf2.
+      assert (Eu : cond_uni tv2 fv2 = cond_uni tv1 fv1).
+      { unfold cond_uni. rewrite <- (is_dyn_null_leq _ _ _ Lt), <- (is_dyn_null_leq _ _ _ Lf), Tt1, Tt2, Tf1, Tf2.
+        reflexivity. }
+      rewrite Eu in E2.
+      destruct (cond_uni tv1 fv1) as [[[[rt tc] fc]|]|[|]] eqn:Un; try (injection E1 as <- <-; unclean K1).
+      destruct (eval_with idx f c1 a1 ce) as [cv1 cd1] eqn:D1. destruct (eval_with idx f c2 a2 ce) as [cv2 cd2] eqn:D2.
+      assert (Kc1 : clean cd1).
+      { destruct (cond_tail_ds rt tc fc cv1 cd1 tv1 td1 fv1 fd1) as [x Hx]. rewrite E1 in Hx. cbn [snd] in Hx.
+        rewrite Hx in K1. apply clean_app in K1 as [K1 _]. exact K1. }
+      assert (Kc2 : clean cd2).
+      { destruct (cond_tail_ds rt tc fc cv2 cd2 tv2 td2 fv2 fd2) as [x Hx]. rewrite E2 in Hx. cbn [snd] in Hx.
+        rewrite Hx in K2. apply clean_app in K2 as [K2 _]. exact K2. }
+      assert (Lc : leq m cv1 cv2) by (useIH Fc D1 D2 Kc1 Kc2).
+      assert (Wc : wf cv1) by (eapply Hwf_eval; [exact C1|exact W1|exact Fc|exact D1]).
+      destruct (is_star m cv1 || is_star m tv1 || is_star m fv1) eqn:Z.
+      - (* some operand carries m: so does every clean result *)
+        destruct (cond_tail_marked _ _ _ _ _ _ _ _ _ _ _ E1 K1) as [x1 ->].
+        destruct (cond_tail_marked _ _ _ _ _ _ _ _ _ _ _ E2 K2) as [x2 ->].
+        assert (Z2 : is_star m cv2 || is_star m tv2 || is_star m fv2 = true).
+        { rewrite <- (leq_is_star _ _ _ Lc), <- (leq_is_star _ _ _ Lt), <- (leq_is_star _ _ _ Lf). exact Z. }
+        assert (G : forall a b c0, is_star m a || is_star m b || is_star m c0 = true ->
+                      mark_mem m (marks_unions [marks_of a; marks_of b; marks_of c0]) = true).
+        { intros a b c0 H. rewrite mark_mem_unions. cbn [existsb].
+          destruct (is_star m a) eqn:Sa; [rewrite (marks_of_star _ _ Sa); reflexivity|].
+          destruct (is_star m b) eqn:Sb; [rewrite (marks_of_star _ _ Sb); apply orb_true_r|].
+          destruct (is_star m c0) eqn:Sc; [rewrite (marks_of_star _ _ Sc); rewrite !orb_true_r; reflexivity|].
+          discriminate H. }
+        apply stars_leq; apply with_marks_star; apply G; assumption.
+      - apply orb_false_iff in Z as [Z Z3]. apply orb_false_iff in Z as [Z1 Z2].
+        assert (Hok : cond_ok_ty (type_of tv1) (type_of fv1)) by (rewrite Tt1, Tf1; exact Hty).
+        destruct (cond_uni_safe _ _ _ _ _ Un Hok) as [Ht' Hf'].
+        assert (OB : forall a b, leq m a b -> is_star m a = false -> wf a -> type_of a = type_of b ->
+                      (forall x, type_of a <> TSet x) ->
+                      obs_of (fst (unmark a)) = obs_of (fst (unmark b))).
+        { intros a b L S W Ty Ns. destruct (unmark_leq _ _ _ L) as [[A _]|(_ & _ & C)].
+          - pose proof (marks_of_nostar _ _ S) as X. unfold marks_of in X. congruence.
+          - apply (obs_leq m); [exact C|apply wf_unmark, W|rewrite <- !type_of_unmark; exact Ty|].
+            rewrite <- type_of_unmark. exact Ns. }
+        eapply cond_tail_leq; [exact Lc|exact Lt|exact Lf|exact Z1|exact Z2|exact Z3|exact Wc|exact Wt|exact Wf
+                              | | |exact Ht'|exact Hf'|exact E1|exact E2|exact K1|exact K2].
+        + apply OB; try assumption; [congruence|rewrite Tt1; exact NsT].
+        + apply OB; try assumption; [congruence|rewrite Tf1; exact NsF].
+    Qed.
   End Step.
+
+  Theorem ni_all : forall f e, in_fragment e -> ni_at f e.
+  Proof.
+    induction f as [|f IH]; intros e Fe.
+    - intros c1 c2 a1 a2 v1 ds1 v2 ds2 _ _ _ _ _ _ _ E1 _ K1 _. cbn [eval_with] in E1.
+      injection E1 as <- <-. unclean K1.
+    - destruct Fe.
+      + apply lit_ni.
+      + apply (paren_ni f IH); assumption.
+      + apply (wrap_ni f IH); assumption.
+      + apply anon_ni.
+      + apply scope_ni.
+      + apply (rel_ni f IH); assumption.
+      + apply (index_ni f IH); assumption.
+      + apply (tuple_ni f IH); assumption.
+      + apply (objkey_ni f IH); assumption.
+      + apply (un_ni f IH); assumption.
+      + apply (bin_ni f IH); assumption.
+      + apply (tmpl_ni f IH); assumption.
+      + apply (join_ni f IH); assumption.
+      + apply (call_ni f IH); assumption.
+      + apply (cond_ni f IH); assumption.
+      + apply (objcons_ni f IH); assumption.
+  Qed.
 End NI.
